@@ -19,20 +19,22 @@ def rstripZeros (s : List Char) : List Char := (s.reverse.dropWhile (· == '0'))
 
 def comp (n : Nat) (des : Char) : List Char := if n = 0 then [] else digits n ++ [des]
 
+/-- the seconds: `"%d" % seconds`, or `("%d.%06d" % (seconds, usecs)).rstrip("0")`, then `S`; nothing when both are zero -/
+def secPart (seconds usecs : Nat) : List Char :=
+  if seconds = 0 ∧ usecs = 0 then []
+  else (if usecs = 0 then digits seconds else digits seconds ++ '.' :: rstripZeros (six usecs)) ++ ['S']
+
+/-- what follows the `T` -/
+def timeBody (hours minutes seconds usecs : Nat) : List Char :=
+  comp hours 'H' ++ (comp minutes 'M' ++ secPart seconds usecs)
+
+def timePart (hours minutes seconds usecs : Nat) : List Char :=
+  if hours = 0 ∧ minutes = 0 ∧ seconds = 0 ∧ usecs = 0 then [] else 'T' :: timeBody hours minutes seconds usecs
+
 /-- `%P` of `isodate.isostrf` for a non-negative number of microseconds -/
 def encAbs (a : Nat) : List Char :=
-  let usecs := a % 1000000
   let secs := a / 1000000
-  let seconds := secs % 60
-  let minutes := secs / 60 % 60
-  let hours := secs / 3600 % 24
-  let days := secs / 86400
-  let time :=
-    if hours = 0 ∧ minutes = 0 ∧ seconds = 0 ∧ usecs = 0 then []
-    else 'T' :: (comp hours 'H' ++ comp minutes 'M' ++
-      (if seconds = 0 ∧ usecs = 0 then []
-       else (if usecs = 0 then digits seconds else digits seconds ++ '.' :: rstripZeros (six usecs)) ++ ['S']))
-  let body := comp days 'D' ++ time
+  let body := comp (secs / 86400) 'D' ++ timePart (secs / 3600 % 24) (secs / 60 % 60) (secs % 60) (a % 1000000)
   'P' :: (if body = [] then ['0', 'D'] else body)
 
 /-- `duration_isoformat(timedelta)` -/
